@@ -27,7 +27,7 @@ import (
 	"verif/internal/model"
 )
 
-const rule = "cases: (signing type, crypto type, seed) x every API path that yields a Destination (NewDestination from a constructed, from a parsed and from a reused KeysAndCert object that held a permitted identity before, NewDestinationFromBytes, ReadDestination, ReadLeaseSet, ReadDestinationFromLeaseSet, ReadLeaseSet2 and ReadMetaLeaseSet with and without an offline-key block (transient key types Ed25519, Ed25519ph, RSA-2048, DSA, RedDSA) and with the other flag bits, RouterIdentity.AsDestination, CreateBlindedDestination, DecryptInnerData on ciphertexts crafted by an independent encryptor, inner LeaseSet2 with and without offline keys) or a RouterIdentity (NewRouterIdentity, NewRouterIdentityWithCompressiblePadding, NewRouterIdentityFromKeysAndCert with a fresh and with a reused KeysAndCert object, NewRouterIdentityFromBytes, ReadRouterIdentity, ReadRouterInfo); types {0..20} x {0..10,255} exhaustively each run, boundary codes 65279..65535 and sampled codes by rapid; the pair (0,0) also as the NULL-certificate 387-byte identity; wire forms are built byte-wise (key material sized by the specification table, excess key bytes in the certificate). Oracle: policy table transcribed from the specification's usage columns - a Destination never declares signing 4,5,6,8 or crypto 5,6,7; a RouterIdentity additionally never signing 11; if a path returns without error the declared types are outside the table; every permitted and supported pair (signing {0,1,2,7} x crypto {0,4}, plus 11 for Destinations) succeeds on every path. Non-trivial: pair prohibited or permitted-and-supported; distinct by (pair, path)."
+const rule = "cases: (signing type, crypto type, seed) x every API path that yields a Destination (NewDestination from a constructed, from a parsed and from a reused KeysAndCert object that held a permitted identity before, NewDestinationFromBytes, ReadDestination, ReadLeaseSet, ReadDestinationFromLeaseSet, ReadLeaseSet2 and ReadMetaLeaseSet with and without an offline-key block (transient key types Ed25519, Ed25519ph, RSA-2048, DSA, RedDSA) and with the other flag bits, RouterIdentity.AsDestination, CreateBlindedDestination, DecryptInnerData on ciphertexts crafted by an independent encryptor, inner LeaseSet2 with and without offline keys) or a RouterIdentity (NewRouterIdentity, NewRouterIdentityWithCompressiblePadding, NewRouterIdentityFromKeysAndCert with a fresh and with a reused KeysAndCert object, NewRouterIdentityFromBytes, ReadRouterIdentity, ReadRouterInfo); types {0..20} x {0..10,255} exhaustively each run, boundary codes 65279..65535 and sampled codes by rapid; the pair (0,0) also as the NULL-certificate 387-byte identity; wire forms are built byte-wise (key material sized by the specification table, excess key bytes in the certificate). Oracle: policy table transcribed from the specification's usage columns - a Destination never declares signing 4,5,6,8 or crypto 5,6,7; a RouterIdentity additionally never signing 11; if a path returns without error the declared types are outside the table, and a path that refuses does not hand the complete prohibited identity back together with the error; every permitted and supported pair (signing {0,1,2,7} x crypto {0,4}, plus 11 for Destinations) succeeds on every path. Non-trivial: pair prohibited or permitted-and-supported; distinct by (pair, path)."
 
 func TestMain(m *testing.M) { ev.Main(m, "C09", rule) }
 
@@ -423,6 +423,11 @@ func check(c Case, r *ev.Rec) error {
 				return fmt.Errorf("%s returned a Destination declaring types %d/%d for an identity encoded with %d/%d", p.name, ds, de, st, et)
 			}
 			r.Class("dest-path-ok")
+		} else if ds, de, ok := typesOfDest(d); ok && destProhibited(ds, de) {
+			// refused - but the prohibited Destination itself must not come back with the error
+			if b, berr := d.Bytes(); berr == nil && len(b) >= 387 {
+				return fmt.Errorf("%s refused the identity (%v) but still returned a complete Destination declaring signing type %d / crypto type %d", p.name, err, ds, de)
+			}
 		} else if supported(st, et, true) {
 			switch p.name {
 			case "CreateBlindedDestination":
@@ -455,6 +460,10 @@ func check(c Case, r *ev.Rec) error {
 				return fmt.Errorf("%s returned a RouterIdentity declaring signing type %d / crypto type %d (prohibited for Router Identities)", p.name, rs, re)
 			}
 			r.Class("ri-path-ok")
+		} else if ri != nil && ri.KeysAndCert != nil && ri.KeyCertificate != nil && riProhibited(ri.KeyCertificate.SigningPublicKeyType(), ri.KeyCertificate.PublicKeyType()) {
+			if b, berr := ri.Bytes(); berr == nil && len(b) >= 387 {
+				return fmt.Errorf("%s refused the identity (%v) but still returned a complete RouterIdentity declaring signing type %d / crypto type %d", p.name, err, ri.KeyCertificate.SigningPublicKeyType(), ri.KeyCertificate.PublicKeyType())
+			}
 		} else if supported(st, et, false) {
 			return fmt.Errorf("%s rejected the permitted, supported combination signing %d / crypto %d: %v", p.name, st, et, err)
 		}
